@@ -7,6 +7,7 @@
 -/
 import Model.Group
 import Lemmas.Group
+import Lemmas.GroupRuns
 
 namespace DI.C04
 
@@ -31,6 +32,24 @@ theorem groups_are_sorted_runs (n : Nat) (keys : List (ColKind × List Cell)) :
 theorem split_lossless (arr : List Nat) (starts : List Nat)
     (hsorted : starts.Pairwise (· ≤ ·)) (hrange : ∀ s ∈ starts, s ≤ arr.length) :
     (splitAt arr starts).flatten = arr := splitAt_flatten arr starts hsorted hrange
+
+/-- all rows of a group carry the same key tuple (a missing value equals a missing value and nothing
+    else) — for every frame size, number of key columns, dtype flags and missing pattern. -/
+theorem groups_homogeneous (n : Nat) (keys : List (ColKind × List Cell)) (hwf : WfKeys n (ascKeys keys))
+    (g : List Nat) (hg : g ∈ groupsOf n keys) (a b : Nat) (ha : a ∈ g) (hb : b ∈ g) :
+    keyRow keys a = keyRow keys b := groupsOf_homogeneous n keys hwf g hg a b ha hb
+
+/-- one group per distinct key combination: rows with equal key tuples are never split over two groups.
+    With `groups_partition` and `groups_homogeneous`: two rows are in the same group iff their key
+    tuples are equal, so `aggregate` yields exactly one summary row per distinct key. -/
+theorem one_group_per_key (n : Nat) (keys : List (ColKind × List Cell)) (hwf : WfKeys n (ascKeys keys))
+    (g1 g2 : List Nat) (h1 : g1 ∈ groupsOf n keys) (h2 : g2 ∈ groupsOf n keys)
+    (a b : Nat) (ha : a ∈ g1) (hb : b ∈ g2) (heq : keyRow keys a = keyRow keys b) : g1 = g2 :=
+  groupsOf_separate n keys hwf g1 g2 h1 h2 a b ha hb heq
+
+/-- a frame with rows has no empty group. -/
+theorem groups_nonempty (n : Nat) (keys : List (ColKind × List Cell)) (hwf : WfKeys n (ascKeys keys)) (hn : 0 < n)
+    (g : List Nat) (hg : g ∈ groupsOf n keys) : g ≠ [] := groupsOf_nonempty n keys hwf hn g hg
 
 example : splitAt [4, 2, 0, 3, 1] [0, 2, 3] = [[4, 2], [0], [3, 1]] := by decide
 
